@@ -13,7 +13,7 @@ open Dtn7.Node
 
 def handle (line : String) : String :=
   if line.startsWith "CONC." then NodeLine.judgeConc line
-  else NodeLine.judge ⟨Dtn7.Gen.C05.seqAssignedFirst, Dtn7.Gen.C05.expiryCountsFromNow, Dtn7.Gen.C05.dtlsrReportsFailure,
+  else NodeLine.judge ⟨Dtn7.Gen.C05.seqAssignedFirst, Dtn7.Gen.C05.sendBundleSkipsStored, Dtn7.Gen.C05.expiryCountsFromNow, Dtn7.Gen.C05.dtlsrReportsFailure,
     Dtn7.Gen.C05.dispatchingHoldsRefused⟩ c05Fail line
 
 def main : IO Unit := Driver.run handle
